@@ -19,6 +19,13 @@ key exchange).  It subclasses translator/pylite.py (unchanged) and adds, fail-cl
   bytearray(e for x, y in zip(a, b))      -> mk_bytes (map (fun '(x,y) => e) (combine a b))
   b"..." / "..."              -> list Z literal / string literal
   not x, len(x), x[i] for a None-able bytearray -> opt_falsy / opt_get (TypeError on None)
+  mutable object state       fields declared `state` become threaded variables self_f: `self.f = e` is
+                              `let self_f := e`, the function returns (result, (state...)).  Obligation
+                              (lexical, fail-closed): every read or write of a state field lies inside
+                              `with self.<lock>:` for the declared lock -- only then is the sequential
+                              state-passing model a model of the shared object (the guarded region is atomic)
+  with self.<lock>: body     -> body (inlined; see the obligation above)
+  not x for an int           -> x =? 0
   a <= b <= c (chained)      -> (a <= b) && (b <= c)   (middle operands must be infallible)
   < <= > >= on pairs of ints -> pairZ_ltb / pairZ_leb (lexicographic, Base/C11_Lib.v)
   external helpers            numBits numBytes bytesToNumber (pure, Base/C11_Lib.v),
@@ -90,6 +97,10 @@ class FnX(FnTranslator):
         if isinstance(e, ast.Attribute):
             # a cached attribute introduced by the caching idiom lives in env
             d = dotted(e)
+            if d is not None and d in getattr(self.unit, 'state', {}):
+                if flat(d) not in env:
+                    raise Refuse('state field %s possibly undefined (line %d)' % (d, e.lineno))
+                return Term(flat(d), env[flat(d)])
             if d is not None and flat(d) in env and d.startswith('self.'):
                 return Term(flat(d), env[flat(d)])
             f = self.field(e)
@@ -123,6 +134,8 @@ class FnX(FnTranslator):
                 return Term('(zlen %s =? 0)' % a.code, 'bool', a.binds)
             if a.ty == 'bool':
                 return Term('(negb %s)' % a.code, 'bool', a.binds)
+            if a.ty == 'Z':
+                return Term('(Z.eqb %s 0)' % a.code, 'bool', a.binds)
             raise Refuse('not on %s (line %d)' % (a.ty, e.lineno))
         if isinstance(e, ast.Subscript) and not isinstance(e.slice, ast.Slice):
             v = self.expr(e.value, env)
@@ -318,11 +331,86 @@ class FnX(FnTranslator):
         return 'let %s := fold_left (fun %s %s =>\n%s) %s %s in\n%s' % (
             pat, pat, epat, body_pure, list_code, tup, cont(env_after))
 
+    def assigned(self, stmts):
+        """names (threaded state fields as self_f) assigned anywhere in stmts"""
+        out = []
+        state = getattr(self.unit, 'state', {})
+        for s in stmts:
+            if isinstance(s, ast.Assign):
+                for t in s.targets:
+                    if isinstance(t, ast.Name):
+                        out.append(t.id)
+                    elif isinstance(t, ast.Tuple) and all(isinstance(x, ast.Name) for x in t.elts):
+                        out += [x.id for x in t.elts if x.id != '_']
+                    elif dotted(t) in state:
+                        out.append(flat(dotted(t)))
+                    elif dotted(t) in self.unit.caches:
+                        out.append(flat(dotted(t)))
+                    else:
+                        raise Refuse('assignment target (line %d)' % s.lineno)
+            elif isinstance(s, ast.AugAssign):
+                if not isinstance(s.target, ast.Name):
+                    raise Refuse('augassign target')
+                out.append(s.target.id)
+            elif isinstance(s, ast.If):
+                out += self.assigned(s.body) + self.assigned(s.orelse)
+            elif isinstance(s, (ast.For, ast.While, ast.With)):
+                out += self.assigned(s.body)
+            elif isinstance(s, ast.Try):
+                out += self.assigned(s.body)
+            elif isinstance(s, ast.Expr) and isinstance(s.value, ast.Call) and \
+                    isinstance(s.value.func, ast.Attribute) and s.value.func.attr == 'update' and \
+                    isinstance(s.value.func.value, ast.Name):
+                out.append(s.value.func.value.id)
+        seen = []
+        for x in out:
+            if x not in seen:
+                seen.append(x)
+        return seen
+
+    def state_tuple(self, env):
+        st = list(getattr(self.unit, 'state', {}))
+        if not st:
+            return None
+        for f_ in st:
+            if flat(f_) not in env:
+                raise Refuse('state field %s undefined at return' % f_)
+        names = [flat(f_) for f_ in st]
+        return names[0] if len(names) == 1 else '(' + ', '.join(names) + ')'
+
     def block(self, stmts, env, k, monadic):
         if not stmts:
             return FnTranslator.block(self, stmts, env, k, monadic)
         s, rest = stmts[0], stmts[1:]
         cont = lambda env2: self.block(rest, env2, k, monadic)
+        state = getattr(self.unit, 'state', {})
+        # ---- with self.<lock>: the guarded statements are inlined (atomicity is the lexical obligation)
+        if isinstance(s, ast.With):
+            if len(s.items) != 1 or s.items[0].optional_vars is not None or \
+                    dotted(s.items[0].context_expr) not in getattr(self.unit, 'locks', ()):
+                raise Refuse('with statement form (line %d)' % s.lineno)
+            if self.contains_return(s.body):
+                raise Refuse('return inside with (line %d)' % s.lineno)
+            return self.block(list(s.body) + list(rest), env, k, monadic)
+        # ---- store to a threaded state field
+        if isinstance(s, ast.Assign) and len(s.targets) == 1 and dotted(s.targets[0]) in state:
+            d = dotted(s.targets[0])
+            t = self.expr(s.value, env)
+            self.need_monad(t.binds, monadic, s)
+            if t.ty != state[d]:
+                raise Refuse('store of %s into %s (line %d)' % (t.ty, d, s.lineno))
+            env2 = dict(env)
+            env2[flat(d)] = t.ty
+            return self.wrap(t.binds, 'let %s := %s in\n%s' % (flat(d), t.code, cont(env2)), monadic)
+        # ---- return from a state-passing method: (result, state)
+        if isinstance(s, ast.Return) and state and self.sig['ret'] != OPT:
+            if rest:
+                raise Refuse('code after return')
+            t = self.expr(s.value, env)
+            self.need_monad(t.binds, monadic, s)
+            if t.ty != self.sig['ret']:
+                raise Refuse('return type %s, declared %s (line %d)' % (t.ty, self.sig['ret'], s.lineno))
+            return self.wrap(t.binds, self.ret('(%s, %s)' % (t.code, self.state_tuple(env)), monadic), monadic)
         # ---- raise
         if isinstance(s, ast.Raise):
             if rest:
@@ -471,7 +559,7 @@ class UnitX(object):
     """
 
     def __init__(self, path, cls, sigs, module_name, fields=None, oracles=None, global_oracles=None,
-                 externs=None, caches=(), requires=()):
+                 externs=None, caches=(), requires=(), state=None, locks=()):
         self.path, self.cls, self.sigs, self.module_name = path, cls, sigs, module_name
         self.fields = dict(fields or {})
         self.oracles = dict(oracles or {})
@@ -479,8 +567,33 @@ class UnitX(object):
         self.externs = dict(externs or {})
         self.caches = set(caches)
         self.requires = requires
+        self.state = dict(state or {})      # {'self.blinder': 'Z'}: mutable fields threaded through
+        self.locks = tuple(locks)           # ('self._lock',): every access to a state field must be guarded
         self.fallible = {}
         self.done = {}
+
+    def lock_obligation(self, fd):
+        """every Load/Store of a state field inside `with <declared lock>:` (lexically)"""
+        if not self.state:
+            return
+
+        def walk(node, guarded):
+            if isinstance(node, ast.With):
+                g = guarded or any(dotted(i.context_expr) in self.locks for i in node.items)
+                for i in node.items:
+                    walk(i.context_expr, guarded)
+                for c in node.body:
+                    walk(c, g)
+                return
+            if isinstance(node, ast.Attribute) and dotted(node) in self.state and not guarded:
+                raise Refuse('lock discipline: %s of %s outside `with %s` (line %d of %s)'
+                             % ('write' if isinstance(node.ctx, ast.Store) else 'read', dotted(node),
+                                '/'.join(self.locks), node.lineno, fd.name))
+            if isinstance(node, (ast.FunctionDef, ast.Lambda)) and node is not fd:
+                raise Refuse('nested function in %s' % fd.name)
+            for c in ast.iter_child_nodes(node):
+                walk(c, guarded)
+        walk(fd, False)
 
     def translate(self):
         with open(self.path) as f:
@@ -507,6 +620,7 @@ class UnitX(object):
                 raise Refuse('signature of %s changed: %s' % (name, argnames))
             if fd.args.vararg or fd.args.kwarg or fd.args.kwonlyargs or fd.args.defaults:
                 raise Refuse('varargs/defaults in %s' % name)
+            self.lock_obligation(fd)
             ft = FnX(self, fd, sig)
             ft.used_fields, ft.used_oracles = set(), set()
             # object-typed parameters are replaced by their declared fields
@@ -518,6 +632,9 @@ class UnitX(object):
                             params.append((flat(fld), fty))
                 else:
                     params.append((p, t))
+            uses_state = bool(self.state) and sig.get('stateful', True)
+            if uses_state:
+                params = [(flat(f_), t_) for f_, t_ in self.state.items()] + params
             ft.sig = dict(sig)
             ft.sig['params'] = params
             code, monadic = ft.translate()
@@ -528,6 +645,9 @@ class UnitX(object):
             plist = [(flat(f_), self.fields[f_]) for f_ in flds] + params
             ptxt = ' '.join('(%s : %s)' % (p, TYX[t]) for p, t in plist)
             rty = TYX[sig['ret']]
+            if uses_state:
+                sts = [TYX[t_] for t_ in self.state.values()]
+                rty = '(%s * %s)' % (rty, sts[0] if len(sts) == 1 else '(' + ' * '.join(sts) + ')')
             if monadic:
                 rty = 'res (%s)' % rty if ' ' in rty else 'res %s' % rty
             defs.append('(* %s:%d %s.%s *)' % (self.path.split('/tlslite/')[-1], fd.lineno, self.cls, name))
